@@ -155,6 +155,7 @@ def to_impl(case):
 
 
 def judge(case, irs, mr):
+    mr, mt = LB.split(mr)
     tags = ['kind=' + case['kind'], 'files=%d' % len(case['files'])]
     ir = irs[0]
     if case['kind'] in ('two-dirs',):
@@ -162,7 +163,7 @@ def judge(case, irs, mr):
         if ir['status'] == 'ok':
             return {'verdict': Verdict.VIOLATION, 'tags': tags, 'detail': 'include name found in two directories was accepted'}
         return {'verdict': Verdict.OK, 'nontrivial': True, 'tags': tags, 'detail': str(ir.get('msg'))[:200]}
-    bad, actual, det = LB.base_judge(dict(case, names={str(i): ('main.asm' if i == 0 else f'inc{i}.asm') for i in range(len(case['files']))}), ir, mr, tags)
+    bad, actual, det = LB.base_judge(dict(case, names={str(i): ('main.asm' if i == 0 else f'inc{i}.asm') for i in range(len(case['files']))}), ir, mr, tags, mt)
     if bad:
         return bad
     if case.get('unsplit') is not None and len(irs) > 1:
